@@ -102,7 +102,7 @@ func (self *Analyzer) lastIsErrorAt(span errors.Span) bool {
     serves C03
     trusted
     ensures @diagnostics-kept len(self.diagnostics) >= old(len(self.diagnostics))
-    ensures @loop-depth-kept self.currentModule == old(self.currentModule) && self.currentModule.LoopDepth == old(self.currentModule.LoopDepth)
+    ensures @loop-depth-kept self.currentModule == old(self.currentModule) && self.currentModule.LoopDepth == old(self.currentModule.LoopDepth) && self.currentModule.CurrentLoopIsTerminated == old(self.currentModule.CurrentLoopIsTerminated)
 @*/
 
 /*@ func (self *Analyzer) breakStatement
@@ -124,6 +124,7 @@ func (self *Analyzer) lastIsErrorAt(span errors.Span) bool {
     assume-safety
     requires self.currentModule != nil && self.currentModule.LoopDepth < 1<<62
     ensures @loop-depth-restored self.currentModule == old(self.currentModule) && self.currentModule.LoopDepth == old(self.currentModule.LoopDepth)
+    ensures @enclosing-loop-termination-untouched self.currentModule.CurrentLoopIsTerminated == old(self.currentModule.CurrentLoopIsTerminated)
     assert @body-inside-loop before body := self.block(node.Body, true) :: self.currentModule.LoopDepth == old(self.currentModule.LoopDepth)+1
 @*/
 
@@ -133,6 +134,33 @@ func (self *Analyzer) lastIsErrorAt(span errors.Span) bool {
     assumepre expression, TypeCheck
     requires self.currentModule != nil && self.currentModule.LoopDepth < 1<<62
     ensures @loop-depth-restored self.currentModule == old(self.currentModule) && self.currentModule.LoopDepth == old(self.currentModule.LoopDepth)
+    assert @enclosing-loop-termination-restored before return ast.AnalyzedWhileStatement{ :: self.currentModule.CurrentLoopIsTerminated == oldLoopIsTerminated
     ensures @condition-must-be-bool ast.VScalarKind(result.Condition.Type().Kind()) && result.Condition.Type().Kind() != ast.BoolTypeKind ==> len(self.diagnostics) > old(len(self.diagnostics))
     assert @body-inside-loop before body := self.block(node.Body, true) :: self.currentModule.LoopDepth == old(self.currentModule.LoopDepth)+1
+@*/
+
+// Scope handling of the for loop (assumed to keep the loop bookkeeping).
+
+/*@ template for (self *Analyzer) ??*Scope
+    serves C03
+    trusted
+    ensures @diagnostics-kept len(self.diagnostics) >= old(len(self.diagnostics))
+    ensures @loop-state-kept self.currentModule == old(self.currentModule) && self.currentModule.LoopDepth == old(self.currentModule.LoopDepth) && self.currentModule.CurrentLoopIsTerminated == old(self.currentModule.CurrentLoopIsTerminated)
+@*/
+
+/*@ func (self *Module) addVar
+    serves C03
+    trusted
+    ensures @loop-state-kept self.LoopDepth == old(self.LoopDepth) && self.CurrentLoopIsTerminated == old(self.CurrentLoopIsTerminated)
+@*/
+
+/*@ func (self *Analyzer) forStatement
+    serves C03
+    assume-safety
+    assumepre expression, SetSpan
+    requires self.currentModule != nil && self.currentModule.LoopDepth < 1<<62
+    ensures @loop-depth-restored self.currentModule == old(self.currentModule) && self.currentModule.LoopDepth == old(self.currentModule.LoopDepth)
+    assert @enclosing-loop-termination-restored before return ast.AnalyzedForStatement{ :: self.currentModule.CurrentLoopIsTerminated == oldLoopIsTerminated
+    ensures @iterator-must-be-iterable ast.VScalarKind(result.IterExpression.Type().Kind()) && result.IterExpression.Type().Kind() != ast.StringTypeKind ==> len(self.diagnostics) > old(len(self.diagnostics))
+    assert @body-inside-loop before body := self.block(node.Body, false) :: self.currentModule.LoopDepth == old(self.currentModule.LoopDepth)+1
 @*/
